@@ -152,7 +152,7 @@ func init() {
 	// soyhtml/directives.go: value.String() of the printed value is val_string; the rune-boundary loop runs at most
 	// maxLen+1 times: C06 C16
 	gtFamily("81-gotrans-directives", []gtItem{
-		{dir: "soyhtml", key: "directiveTruncate", cfg: &gtCfg{fuel: map[int]string{1: "maxLen + 2"}}},
+		{dir: "soyhtml", key: "directiveTruncate", cfg: &gtCfg{fuel: map[int]string{1: "@var + 2"}}},
 		it("soyhtml", "directiveInsertWordBreaks"),
 		it("soyhtml", "directiveChangeNewlineToBr"),
 	})
